@@ -445,6 +445,9 @@ func runC20(c *Ctx) {
 						}
 					}
 				}
+				if !guarded && c.zipCalleeGuards(env, fns, call, a, sinkArgs) {
+					guarded = true // the function the name is handed to makes the test itself before every sink (v_zip_u.go)
+				}
 				detail := "a path built from a zip entry name reaches " + ir.CalleeFullName(call) + " without a dominating containment test on it: an entry named ../x or /abs is created outside the destination"
 				if !guarded && weak != "" {
 					detail = "the only containment test on this path is unsound: " + weak
